@@ -43,7 +43,7 @@ def cases(tier, seed):
             shallow = [p for p in paths if 1 <= len(p) <= 2] or paths
             yield mk_case(t, r.choice(shallow), r.choice([True, None, True, False]))
             continue
-        t = gen.gen_tree(r, rootname=gen.gen_name(r, set(), odd=0.2), maxdepth=r.choice([2, 3, 5]), md=0.5)
+        t = gen.gen_tree(r, rootname=gen.gen_name(r, set(), odd=0.2), maxdepth=r.choice([2, 3, 5]), md=0.5, classes=gen.CLASSES_C)
         paths = gen.tree_paths(t)
         if tier == "thorough" and i % 4 == 0:
             for p in paths[:12]:
